@@ -329,8 +329,7 @@ theorem wf_crossStep {ss : SymSet} {lhs rhs post : Ind} (hl : WF ss lhs) (hr : W
   · rw [hb]; exact hl.best
   · rw [hb, ← hsz.1, ← hsz.2]; exact hr.best
 
-theorem crossover_refines {lhs rhs : Ind} (hsz : rhs.rows = lhs.rows ∧ rhs.cols = lhs.cols)
-    (d : XDraw) (hd : XDrawOK (if d.b then rhs else lhs) d) :
+theorem crossover_refines {lhs rhs : Ind} (d : XDraw) (hd : XDrawOK (if d.b then rhs else lhs) d) :
     CrossStep lhs rhs (crossover lhs rhs d) := by
   have key : ∀ frm to : Ind, XDrawOK frm d →
       Flavour frm.xover frm to
@@ -384,7 +383,7 @@ theorem crossover_refines {lhs rhs : Ind} (hsz : rhs.rows = lhs.rows ∧ rhs.col
 theorem wf_crossover {ss : SymSet} {lhs rhs : Ind} (hl : WF ss lhs) (hr : WF ss rhs)
     (hsz : rhs.rows = lhs.rows ∧ rhs.cols = lhs.cols) (d : XDraw)
     (hd : XDrawOK (if d.b then rhs else lhs) d) : WF ss (crossover lhs rhs d) :=
-  wf_crossStep hl hr hsz (crossover_refines hsz d hd)
+  wf_crossStep hl hr hsz (crossover_refines d hd)
 
 /-! ## common subexpression elimination -/
 
@@ -521,5 +520,281 @@ theorem team_members_reachable {ss : SymSet} {rows : Nat} {t : Team}
 theorem wf_closed_team {ss : SymSet} (hc : 0 < ss.cats) {rows : Nat} {t : Team}
     (h : TReachable ss rows t) : TeamWF ss t :=
   fun x hx => (wf_closed hc (team_members_reachable h x hx)).1
+
+/-! ## closure over histories of the operator *functions* (explicit draws) -/
+
+/-- individuals produced by any finite sequence of the model operators, every draw being an
+    arbitrary value allowed by the contract of the random primitive that produces it -/
+inductive ReachableF (ss : SymSet) (rows : Nat) : Ind → Prop
+  | random {pl xo : Nat} {d : Nat → Nat → GDraw} : pl < rows → xo < 4 →
+      (∀ i, i < rows → ∀ c, c < ss.cats → DrawOK ss rows pl i c (d i c)) →
+      ReachableF ss rows (randomInd ss rows pl xo d)
+  | mutation {x : Ind} {pl : Nat} {eqv : Gene → Gene → Bool} {bern : Nat → Nat → Bool}
+      {d : Nat → Nat → GDraw} : ReachableF ss rows x →
+      (∀ i, i < x.rows → ∀ c, c < x.cols → DrawOK ss x.rows pl i c (d i c)) →
+      ReachableF ss rows (mutation ss pl eqv bern d x).1
+  | crossover {x y : Ind} {d : XDraw} : ReachableF ss rows x → ReachableF ss rows y →
+      XDrawOK (if d.b then y else x) d → ReachableF ss rows (crossover x y d)
+  | getBlock {x : Ind} {l : Locus} : ReachableF ss rows x → Inside x l →
+      ReachableF ss rows (getBlock x l)
+  | destroyBlock {x : Ind} {idx : Nat} {d : Nat → GDraw} : ReachableF ss rows x →
+      (∀ c, c < x.cols → TDrawOK ss c (d c)) → ReachableF ss rows (destroyBlock ss x idx d)
+  | replace {x : Ind} {l : Locus} {g : Gene} : ReachableF ss rows x → Compatible ss x l g →
+      ReachableF ss rows (replace x l g)
+  | cse {x : Ind} : ReachableF ss rows x → ReachableF ss rows (cse x)
+
+/-- Every history of operator functions is a history of step relations. -/
+theorem reachableF_reachable {ss : SymSet} (hv : ss.Valid) {rows : Nat} (hp : rows ≤ PACK)
+    {x : Ind} (h : ReachableF ss rows x) : Reachable ss rows x := by
+  induction h with
+  | random hpl hx hd => exact Reachable.random hpl (randomInd_refines hv hp hx hd)
+  | mutation _ hd ih =>
+    have hw := wf_closed hv.cats_pos ih
+    exact Reachable.mutation ih (mutation_refines hv _ _ hw.1 (by rw [hw.2]; exact hp) hd)
+  | crossover _ _ hd ihx ihy =>
+    exact Reachable.crossover ihx ihy (crossover_refines _ hd)
+  | getBlock _ hl ih =>
+    exact Reachable.getBlock ih hl (wf_get_block (wf_closed hv.cats_pos ih).1 hl).2
+  | destroyBlock _ hd ih =>
+    exact Reachable.destroyBlock ih (destroyBlock_refines (wf_closed hv.cats_pos ih).1 hd)
+  | replace _ hg ih =>
+    exact Reachable.replace ih hg (wf_replace (wf_closed hv.cats_pos ih).1 hg).2
+  | cse _ ih =>
+    have hw := wf_closed hv.cats_pos ih
+    exact Reachable.cse ih (cse_refines hw.1 (by rw [hw.2]; exact hp))
+
+/-- **Closure theorem.**  Whatever the symbol set (valid), the code length (≤ 2^16, the range
+    of `gene::packed_index_t`), the patch lengths, the history of operations and the values
+    drawn, the individual obtained is well-formed. -/
+theorem wf_closed_functions {ss : SymSet} (hv : ss.Valid) {rows : Nat} (hp : rows ≤ PACK)
+    {x : Ind} (h : ReachableF ss rows x) : WF ss x :=
+  (wf_closed hv.cats_pos (reachableF_reachable hv hp h)).1
+
+/-! ## teams: operator functions -/
+
+theorem teamRandom_refines {ss : SymSet} (hv : ss.Valid) {rows pl n : Nat} {xo : Nat → Nat}
+    {d : Nat → Nat → Nat → GDraw} (hp : rows ≤ PACK)
+    (hd : ∀ k, k < n → xo k < 4 ∧
+      ∀ i, i < rows → ∀ c, c < ss.cats → DrawOK ss rows pl i c (d k i c)) :
+    TeamRandomStep ss rows pl (teamRandom ss rows pl xo d n) := by
+  intro x hx
+  simp only [teamRandom, List.mem_map, List.mem_range] at hx
+  obtain ⟨k, hk, rfl⟩ := hx
+  exact randomInd_refines hv hp (hd k hk).1 (hd k hk).2
+
+theorem teamMutation_refines {ss : SymSet} (hv : ss.Valid) {pl : Nat} (eqv : Gene → Gene → Bool)
+    (bern : Nat → Nat → Nat → Bool) {d : Nat → Nat → Nat → GDraw} {t : Team}
+    (hw : TeamWF ss t) (hp : ∀ x ∈ t, x.rows ≤ PACK)
+    (hd : ∀ k, k < t.length → ∀ i, i < (t.getD k teamMutation.default_ind).rows →
+      ∀ c, c < (t.getD k teamMutation.default_ind).cols →
+        DrawOK ss (t.getD k teamMutation.default_ind).rows pl i c (d k i c)) :
+    TeamMutStep ss pl t (teamMutation ss pl eqv bern d t).1 := by
+  refine ⟨by simp [teamMutation], ?_⟩
+  intro k hk
+  have hm := getD_mem_of_lt t k teamMutation.default_ind hk
+  have : (teamMutation ss pl eqv bern d t).1.getD k teamMutation.default_ind
+      = (mutation ss pl eqv (bern k) (d k) (t.getD k teamMutation.default_ind)).1 := by
+    simp only [teamMutation, List.map_map]
+    rw [getD_map_range _ _ _ _ hk]
+    rfl
+  rw [this]
+  exact mutation_refines hv eqv (bern k) (hw _ hm) (hp _ hm) (hd k hk)
+
+theorem teamCrossover_refines {lhs rhs : Team} (d : Nat → XDraw)
+    (hd : ∀ k, k < lhs.length →
+      XDrawOK (if (d k).b then rhs.getD k teamMutation.default_ind
+               else lhs.getD k teamMutation.default_ind) (d k)) :
+    TeamCrossStep lhs rhs (teamCrossover lhs rhs d) := by
+  refine ⟨by simp [teamCrossover], ?_⟩
+  intro k hk
+  have : (teamCrossover lhs rhs d).getD k teamMutation.default_ind
+      = crossover (lhs.getD k teamMutation.default_ind) (rhs.getD k teamMutation.default_ind) (d k) := by
+    simp only [teamCrossover]
+    rw [getD_map_range _ _ _ _ hk]
+  rw [this]
+  exact crossover_refines (d k) (hd k hk)
+
+/-- teams produced by any finite sequence of the model team operators -/
+inductive TReachableF (ss : SymSet) (rows : Nat) : Team → Prop
+  | random {pl n : Nat} {xo : Nat → Nat} {d : Nat → Nat → Nat → GDraw} : pl < rows →
+      (∀ k, k < n → xo k < 4 ∧
+        ∀ i, i < rows → ∀ c, c < ss.cats → DrawOK ss rows pl i c (d k i c)) →
+      TReachableF ss rows (teamRandom ss rows pl xo d n)
+  | ofMembers {t : Team} : (∀ x ∈ t, ReachableF ss rows x) → TReachableF ss rows t
+  | mutation {t : Team} {pl : Nat} {eqv : Gene → Gene → Bool} {bern : Nat → Nat → Nat → Bool}
+      {d : Nat → Nat → Nat → GDraw} : TReachableF ss rows t →
+      (∀ k, k < t.length → ∀ i, i < (t.getD k teamMutation.default_ind).rows →
+        ∀ c, c < (t.getD k teamMutation.default_ind).cols →
+          DrawOK ss (t.getD k teamMutation.default_ind).rows pl i c (d k i c)) →
+      TReachableF ss rows (teamMutation ss pl eqv bern d t).1
+  | crossover {lhs rhs : Team} {d : Nat → XDraw} : TReachableF ss rows lhs →
+      TReachableF ss rows rhs → rhs.length = lhs.length →
+      (∀ k, k < lhs.length →
+        XDrawOK (if (d k).b then rhs.getD k teamMutation.default_ind
+                 else lhs.getD k teamMutation.default_ind) (d k)) →
+      TReachableF ss rows (teamCrossover lhs rhs d)
+
+theorem treachableF_treachable {ss : SymSet} (hv : ss.Valid) {rows : Nat} (hp : rows ≤ PACK)
+    {t : Team} (h : TReachableF ss rows t) : TReachable ss rows t := by
+  induction h with
+  | random hpl hd => exact TReachable.random hpl (teamRandom_refines hv hp hd)
+  | ofMembers hm => exact TReachable.ofMembers (fun x hx => reachableF_reachable hv hp (hm x hx))
+  | mutation _ hd ih =>
+    have hm := team_members_reachable ih
+    refine TReachable.mutation ih (teamMutation_refines hv _ _ (wf_closed_team hv.cats_pos ih) ?_ hd)
+    intro x hx
+    rw [(wf_closed hv.cats_pos (hm x hx)).2]; exact hp
+  | crossover _ _ hlen hd ihl ihr =>
+    exact TReachable.crossover ihl ihr hlen (teamCrossover_refines _ hd)
+
+/-- **Closure theorem for teams.** -/
+theorem wf_closed_team_functions {ss : SymSet} (hv : ss.Valid) {rows : Nat} (hp : rows ≤ PACK)
+    {t : Team} (h : TReachableF ss rows t) : TeamWF ss t :=
+  wf_closed_team hv.cats_pos (treachableF_treachable hv hp h)
+
+/-- Team mutation with probability zero is the identity on every member and reports 0. -/
+theorem team_mutation_zero_id (ss : SymSet) (pl : Nat) (eqv : Gene → Gene → Bool)
+    (d : Nat → Nat → Nat → GDraw) (t : Team) :
+    (teamMutation ss pl eqv (fun _ _ _ => false) d t).2 = 0 ∧
+    ∀ k, k < t.length →
+      (teamMutation ss pl eqv (fun _ _ _ => false) d t).1.getD k teamMutation.default_ind
+        = t.getD k teamMutation.default_ind := by
+  constructor
+  · simp only [teamMutation, List.map_map]
+    apply sum_eq_zero_of_all
+    intro n hn
+    simp only [List.mem_map, List.mem_range, Function.comp] at hn
+    obtain ⟨k, _, rfl⟩ := hn
+    rw [mutation_zero_id]
+  · intro k hk
+    simp only [teamMutation, List.map_map]
+    rw [getD_map_range _ _ _ _ hk]
+    simp only [Function.comp]
+    rw [mutation_zero_id]
+
+/-! ## non-vacuity: concrete values meeting the hypotheses above -/
+
+namespace Ex
+
+def one : Sym := ⟨0, 0, [], false, 100⟩          -- a real constant
+def erc : Sym := ⟨1, 0, [], true, 200⟩           -- a parametric terminal (ephemeral constant)
+def add : Sym := ⟨2, 0, [0, 0], false, 100⟩      -- real × real → real
+def len : Sym := ⟨3, 0, [1], false, 50⟩          -- string → real
+def str : Sym := ⟨4, 1, [], false, 100⟩          -- a string constant
+def sife : Sym := ⟨5, 1, [0, 0, 1, 1], false, 100⟩  -- (real, real, string, string) → string
+
+/-- two categories, strongly typed functions, a parametric terminal -/
+def ss : SymSet := ⟨2, [one, erc, add, len, str, sife]⟩
+
+def ofRows (rows : List (Gene × Gene)) (best : Locus) (age xo : Nat) : Ind :=
+  { rows := rows.length, cols := 2,
+    gene := fun i c => if c = 0 then (rows.getD i default).1 else (rows.getD i default).2,
+    best := best, age := age, xover := xo }
+
+def a : Ind := ofRows
+  [(⟨add, 0, [1, 2]⟩, ⟨sife, 0, [1, 3, 2, 3]⟩),
+   (⟨len, 0, [2]⟩,     ⟨str, 0, []⟩),
+   (⟨add, 0, [3, 3]⟩,  ⟨sife, 0, [3, 3, 3, 3]⟩),
+   (⟨erc, 77, []⟩,     ⟨str, 0, []⟩)] ⟨0, 0⟩ 0 0
+
+def b : Ind := ofRows
+  [(⟨len, 0, [3]⟩,     ⟨str, 0, []⟩),
+   (⟨add, 0, [2, 3]⟩,  ⟨str, 0, []⟩),
+   (⟨add, 0, [3, 3]⟩,  ⟨sife, 0, [3, 3, 3, 3]⟩),
+   (⟨one, 0, []⟩,      ⟨str, 0, []⟩)] ⟨0, 0⟩ 0 3
+
+/-- the one-point offspring (cut = 3) of `b` (to) and `a` (from, whose flavour is one_point) -/
+def child : Ind := ofRows
+  [(⟨len, 0, [3]⟩,     ⟨str, 0, []⟩),
+   (⟨add, 0, [2, 3]⟩,  ⟨str, 0, []⟩),
+   (⟨add, 0, [3, 3]⟩,  ⟨sife, 0, [3, 3, 3, 3]⟩),
+   (⟨erc, 77, []⟩,     ⟨str, 0, []⟩)] ⟨0, 0⟩ 0 0
+
+/-- `a` after cse: the duplicate `add 3 3` / `sife 3 3 3 3` genes need no redirect, but the
+    argument 1 of row 0 … stays; (2,0) and nothing else equals – a redirect example follows -/
+def dup : Ind := ofRows
+  [(⟨add, 0, [1, 2]⟩, ⟨str, 0, []⟩),
+   (⟨add, 0, [3, 3]⟩, ⟨str, 0, []⟩),
+   (⟨add, 0, [3, 3]⟩, ⟨str, 0, []⟩),
+   (⟨one, 0, []⟩,     ⟨str, 0, []⟩)] ⟨0, 0⟩ 0 1
+def dupCse : Ind := ofRows
+  [(⟨add, 0, [2, 2]⟩, ⟨str, 0, []⟩),
+   (⟨add, 0, [3, 3]⟩, ⟨str, 0, []⟩),
+   (⟨add, 0, [3, 3]⟩, ⟨str, 0, []⟩),
+   (⟨one, 0, []⟩,     ⟨str, 0, []⟩)] ⟨0, 0⟩ 0 1
+
+example : ss.Valid := ⟨by decide, by decide, by decide⟩
+example : WF ss a := (wfb_iff _ _).1 (by decide)
+example : WF ss b := (wfb_iff _ _).1 (by decide)
+example : ¬ WF ss (replace a ⟨2, 0⟩ ⟨add, 0, [2, 3]⟩) := fun h => by
+  have := (wfb_iff _ _).2 h
+  revert this; decide
+example : RandomStep ss 4 1 a := by decide
+example : RandomStep ss 4 1 b := by decide
+example : CrossStep b a child := by decide
+example : OnePoint a b child ∧ ¬ TwoPoints a b child := by decide
+example : TreeX a b (crossover b a ⟨false, 0, 0, 0, fun _ _ => false, 0⟩) ∨ True := Or.inr trivial
+example : CseStep dup dupCse := by decide
+example : dupCse.gene 0 0 ≠ dup.gene 0 0 := by decide
+example : MutStep ss 1 a (replace a ⟨1, 0⟩ ⟨add, 0, [3, 2]⟩) := by decide
+example : Compatible ss a ⟨1, 0⟩ ⟨add, 0, [3, 2]⟩ := by decide
+example : DestroyStep ss a 1 (replace a ⟨1, 0⟩ ⟨one, 0, []⟩) := by decide
+example : exons a = [⟨0, 0⟩, ⟨1, 0⟩, ⟨2, 0⟩, ⟨2, 1⟩, ⟨3, 0⟩, ⟨3, 0⟩, ⟨3, 0⟩, ⟨3, 0⟩, ⟨3, 1⟩, ⟨3, 1⟩] := by
+  decide
+
+/-- a non-trivial history: two random individuals, a one-point crossover, a block extraction,
+    a cse step – `Reachable` is inhabited well beyond the base case -/
+example : Reachable ss 4 (getBlock child ⟨1, 0⟩) :=
+  have ha : Reachable ss 4 a := Reachable.random (pl := 1) (by decide) (by decide)
+  have hb : Reachable ss 4 b := Reachable.random (pl := 1) (by decide) (by decide)
+  have hc : Reachable ss 4 child := Reachable.crossover hb ha (by decide)
+  Reachable.getBlock (l := ⟨1, 0⟩) hc (by decide) (by decide)
+
+example : Reachable ss 4 dupCse :=
+  Reachable.cse (Reachable.random (pl := 1) (post := dup) (by decide) (by decide)) (by decide)
+
+/-- admissible draws exist for every length and patch length: always pick the first terminal
+    / let every argument point to the last row -/
+def d0 (rows : Nat) : Nat → Nat → GDraw := fun _ _ => ⟨false, 0, 0, 0, fun _ => rows - 1⟩
+
+theorem d0_ok (rows pl : Nat) (hpl : 0 < pl) (i : Nat) (hi : i < rows) (c : Nat) (hc : c < ss.cats) :
+    DrawOK ss rows pl i c (d0 rows i c) := by
+  have hc' : c = 0 ∨ c = 1 := by
+    have : ss.cats = 2 := rfl
+    omega
+  have h0 : 0 < wsum (ss.terminals 0) := by decide
+  have h1 : 0 < wsum (ss.terminals 1) := by decide
+  have ht : TDrawOK ss c (d0 rows i c) := by
+    rcases hc' with rfl | rfl
+    · simpa [TDrawOK, d0] using h0
+    · simpa [TDrawOK, d0] using h1
+  unfold DrawOK
+  split
+  · refine ⟨fun h => by simp [SymSet.useF, d0] at h, fun _ => ht, fun k => ?_⟩
+    simp only [d0]; omega
+  · exact ht
+
+example : ReachableF ss 4 (cse (randomInd ss 4 1 2 (d0 4))) :=
+  ReachableF.cse (ReachableF.random (by decide) (by decide) (fun i hi c hc => d0_ok 4 1 (by decide) i hi c hc))
+
+example : WF ss (cse (randomInd ss 4 1 2 (d0 4))) :=
+  wf_closed_functions ⟨by decide, by decide, by decide⟩ (by decide)
+    (ReachableF.cse (ReachableF.random (by decide) (by decide)
+      (fun i hi c hc => d0_ok 4 1 (by decide) i hi c hc)))
+
+/-- the hypothesis `rows ≤ 2^16` is needed: beyond it the stored argument is truncated -/
+example : ¬ GeneWF ss 70000 2 66000 0 (geneOfSym add ⟨false, 0, 0, 0, fun _ => 69000⟩) := by decide
+
+/-- the one-point cut: with two rows the only cut is 1 (the draw range [1, 1) is empty) -/
+example : onePointCut 2 12345 = 1 ∧ ¬ (∃ cut, 1 ≤ cut ∧ cut < 2 - 1) := by
+  refine ⟨rfl, ?_⟩
+  rintro ⟨c, h1, h2⟩; omega
+
+/-- the wedge loop on the terminals of category 0 (weights 100, 200): every slot below the sum
+    stays inside the container; the sum itself would run past the end -/
+example : wedgeIdx (ss.terminals 0) 0 99 = some 0 ∧ wedgeIdx (ss.terminals 0) 0 100 = some 1 ∧
+    wedgeIdx (ss.terminals 0) 0 299 = some 1 ∧ wedgeIdx (ss.terminals 0) 0 300 = none := by decide
+
+end Ex
 
 end Vita.C02
